@@ -249,18 +249,12 @@ def _field_equal(a, b) -> bool:
     return a == b
 
 
-def numpy_code_agrees(entry, pools, rng, n_events=5):  # noqa: C901
-    """(4) numerical code of the folded form = numerical code of the unfolded form."""
-    import warnings
-
-    import numpy as np
-
-    warnings.filterwarnings("ignore", category=RuntimeWarning)
+def standard_instance(entry, pools, rng):
+    """An instance of a NumPyPrintable class with arguments of the kinds its printer expects."""
     import sympy as sp
 
     from ampform.kinematics.lorentz import ArraySize, ThreeMomentum
 
-    fails = []
     p = pools.momenta[0]
     x, y, z = sp.symbols("x y z", positive=True)
     scal = iter([x, y, z, x * y, x + z, y / 2, x, y, z, x, y, z])
@@ -284,42 +278,132 @@ def numpy_code_agrees(entry, pools, rng, n_events=5):  # noqa: C901
         else:
             args.append(next(scal))
     attrs = tuple(dom[0] for dom in entry.attr_domain)
+    return entry.build(*args, attrs=attrs)
+
+
+def generated_source(expr, lam_args, cse: bool) -> str:
+    import inspect
+
+    import sympy as sp
+
+    return inspect.getsource(sp.lambdify(lam_args, expr, "numpy", cse=cse))
+
+
+def source_structure(src: str) -> str:
+    """The generated function as a Python AST dump (layout, comments and the name of the generated
+    function do not matter)."""
+    import ast
+
+    tree = ast.parse(src)
+    fn = tree.body[0]
+    fn.name = "_"
+    return ast.dump(fn, annotate_fields=False, include_attributes=False)
+
+
+def numpy_code_agrees(entry, pools, rng, n_events=6):  # noqa: C901, PLR0912, PLR0915
+    """(4) numerical code of the folded form = numerical code of the unfolded form.
+
+    Two ways, for cse off and on:
+    * structurally: every `_numpycode` of the package prints its own definition (or, for the
+      implement_doit=False classes, is untouched by doit), so the generated SOURCE of the folded
+      form must be the same program (equal Python AST) as the source generated from `doit()`;
+      a hand-written printer that takes a short cut shows up here whatever inputs are tried;
+    * numerically on real-valued AND complex-valued inputs (arrays and scalars), tolerance relative
+      to the unfolded value, skipping only points where the unfolded code itself is not finite.
+    Returns (failing inputs, number of numeric comparisons, structural notes)."""
+    import warnings
+
+    import numpy as np
+    import sympy as sp
+
+    warnings.filterwarnings("ignore", category=RuntimeWarning)
+    warnings.filterwarnings("ignore", category=np.exceptions.ComplexWarning) if hasattr(np, "exceptions") else None
+    fails, structural = [], []
+    p = pools.momenta[0]
     try:
-        r = entry.build(*args, attrs=attrs)
+        r = standard_instance(entry, pools, rng)
     except Exception as e:  # noqa: BLE001
-        return [{"class": "cannot instantiate a NumPyPrintable class with standard arguments", "cls": entry.key, "error": repr(e)}], 0
-    folded, unfolded = r, r.doit()
-    free = sorted(folded.free_symbols | unfolded.free_symbols, key=str)
-    arrays = sorted((a for a in folded.atoms(type(p)) | unfolded.atoms(type(p))), key=str)
-    free = [s for s in free if s not in {a.args[0] for a in arrays}]
-    lam_args = [*arrays, *free]
+        return [{"class": "cannot instantiate a NumPyPrintable class with standard arguments", "cls": entry.key, "error": repr(e)}], 0, []
+    subjects = [("instance", r)]
+    if entry.cls.__name__ in {"EuclideanNorm", "EuclideanNormSquared", "ThreeMomentum"} or True:
+        # also inside arithmetic, as it occurs in kinematic variables
+        subjects.append(("instance**2 + 1", r**2 + 1 if getattr(r, "is_commutative", True) else r))
     nprng = np.random.default_rng(rng.randrange(2**31))
-    vals = []
-    for a in lam_args:
-        if a in arrays:
-            mom = nprng.normal(size=(n_events, 3))
-            mass = nprng.uniform(0.1, 1.0, size=n_events)
-            e = np.sqrt((mom**2).sum(axis=1) + mass**2)
-            vals.append(np.column_stack([e, mom]))
-        else:
-            vals.append(nprng.uniform(0.3, 0.9, size=n_events))
     n = 0
-    for cse in (False, True):
-        try:
-            f1 = sp.lambdify(lam_args, folded, "numpy", cse=cse)
-            f2 = sp.lambdify(lam_args, unfolded, "numpy", cse=cse)
-            v1 = np.asarray(f1(*vals), dtype=complex)
-            v2 = np.asarray(f2(*vals), dtype=complex)
-        except Exception as e:  # noqa: BLE001
-            fails.append({"class": "numerical code of the folded or unfolded form cannot be generated/run", "cls": entry.key,
-                          "expr": sp.srepr(r)[:800], "cse": cse, "error": f"{type(e).__name__}: {e}"[:300]})
-            continue
-        n += 1
-        v1b, v2b = np.broadcast_arrays(v1, v2) if v1.shape != v2.shape and (v1.ndim == 0 or v2.ndim == 0) else (v1, v2)
-        if v1b.shape != v2b.shape or not np.allclose(v1b, v2b, rtol=1e-9, atol=1e-12, equal_nan=True):
-            fails.append({"class": "numerical code of the folded form != code of the unfolded form", "cls": entry.key,
-                          "expr": sp.srepr(r)[:800], "cse": cse, "folded": str(v1)[:200], "unfolded": str(v2)[:200]})
-    return fails, n
+    for label, folded in subjects[: 2 if label_ok(entry) else 1]:
+        unfolded = folded.doit()
+        free = sorted(folded.free_symbols | unfolded.free_symbols, key=str)
+        arrays = sorted((a for a in folded.atoms(type(p)) | unfolded.atoms(type(p))), key=str)
+        free = [s for s in free if s not in {a.args[0] for a in arrays}]
+        lam_args = [*arrays, *free]
+        inputs = {}
+        for kind in ("real", "complex"):
+            vals = []
+            for a in lam_args:
+                if a in arrays:
+                    mom = nprng.normal(size=(n_events, 3))
+                    mass = nprng.uniform(0.1, 1.0, size=n_events)
+                    arr = np.column_stack([np.sqrt((mom**2).sum(axis=1) + mass**2), mom])
+                    if kind == "complex":
+                        arr = arr + 1j * nprng.uniform(-0.8, 0.8, size=arr.shape)
+                    vals.append(arr)
+                else:
+                    v = nprng.uniform(0.3, 0.9, size=n_events)
+                    if kind == "complex":
+                        v = v + 1j * nprng.uniform(-0.5, 0.5, size=n_events)
+                    vals.append(v)
+            inputs[kind] = vals
+        for cse in (False, True):
+            rec = {"cls": entry.key, "expr": sp.srepr(folded)[:800], "form": label, "cse": cse}
+            try:
+                src_f, src_u = generated_source(folded, lam_args, cse), generated_source(unfolded, lam_args, cse)
+                f1 = sp.lambdify(lam_args, folded, "numpy", cse=cse)
+                f2 = sp.lambdify(lam_args, unfolded, "numpy", cse=cse)
+            except Exception as e:  # noqa: BLE001
+                fails.append({"class": "numerical code of the folded or unfolded form cannot be generated/run", **rec,
+                              "error": f"{type(e).__name__}: {e}"[:300]})
+                continue
+            # (inside arithmetic SymPy simplifies the unfolded form, e.g. sqrt(x)**2 -> x: numeric only)
+            same_program = label != "instance" or source_structure(src_f) == source_structure(src_u)
+            if not same_program:
+                structural.append({**rec, "folded_code": src_f.strip().splitlines()[-1].strip()[:300],
+                                   "unfolded_code": src_u.strip().splitlines()[-1].strip()[:300]})
+            for kind, vals in inputs.items():
+                try:
+                    v2 = np.asarray(f2(*vals), dtype=complex)
+                except Exception:  # noqa: BLE001, S112  the unfolded code itself is not defined on this input class
+                    continue
+                try:
+                    v1 = np.asarray(f1(*vals), dtype=complex)
+                except Exception as e:  # noqa: BLE001
+                    fails.append({"class": "numerical code of the folded or unfolded form cannot be generated/run", **rec, "input": kind,
+                                  "error": f"folded code raised {type(e).__name__}: {e}"[:300]})
+                    continue
+                n += 1
+                if v1.shape != v2.shape:
+                    if v1.ndim == 0 or v2.ndim == 0:
+                        v1, v2 = np.broadcast_arrays(v1, v2)
+                    else:
+                        fails.append({"class": "numerical code of the folded form != code of the unfolded form", **rec, "input": kind,
+                                      "shapes": [list(v1.shape), list(v2.shape)]})
+                        continue
+                ok = np.isfinite(v2)
+                if not ok.any():
+                    continue
+                scale = np.maximum(np.abs(v2[ok]), 1e-300)
+                if np.any(np.abs(v1[ok] - v2[ok]) > 1e-9 * scale) or not np.all(np.isfinite(v1[ok])):
+                    j = int(np.argmax(np.abs(v1[ok] - v2[ok]) / scale))
+                    fails.append({"class": "numerical code of the folded form != code of the unfolded form", **rec, "input": kind + "-valued",
+                                  "first_input_row": [str(np.asarray(a)[0]) for a in vals][:3],
+                                  "folded": str(v1[ok].ravel()[j]), "unfolded": str(v2[ok].ravel()[j]),
+                                  "folded_code": src_f.strip().splitlines()[-1].strip()[:300],
+                                  "unfolded_code": src_u.strip().splitlines()[-1].strip()[:300]})
+    return fails, n, structural
+
+
+def label_ok(entry) -> bool:
+    """array-of-matrices classes are not put inside scalar arithmetic."""
+    return entry.cls.__name__ in {"EuclideanNorm", "EuclideanNormSquared", "ThreeMomentum", "ArraySize"}
 
 
 def complex_sqrt_code_agrees():
@@ -336,6 +420,22 @@ def complex_sqrt_code_agrees():
     e = ComplexSqrt(x**2 - 2)
     pts = np.array([-1.7, -0.3, 0.4, 1.9, 2.5])
     fails = []
+    # folded vs its definition also on complex-valued input (where numpy still orders complex numbers)
+    zpts = pts + 1j * np.array([0.3, -0.2, 0.5, -0.7, 0.1])
+    for cse in (False, True):
+        try:
+            w2 = np.asarray(sp.lambdify([x], e.get_definition(), "numpy", cse=cse)(zpts), dtype=complex)
+        except Exception:  # noqa: BLE001, S112
+            continue
+        try:
+            w1 = np.asarray(sp.lambdify([x], e, "numpy", cse=cse)(zpts), dtype=complex)
+        except Exception as exc:  # noqa: BLE001
+            fails.append({"class": "numerical code of the folded or unfolded form cannot be generated/run", "cls": "ComplexSqrt", "input": "complex", "error": repr(exc)})
+            continue
+        ok = np.isfinite(w2)
+        if ok.any() and not np.allclose(w1[ok], w2[ok], rtol=1e-10):
+            fails.append({"class": "numerical code of the folded form != code of the unfolded form", "cls": "ComplexSqrt", "input": "complex-valued",
+                          "expr": sp.srepr(e), "folded": str(w1), "unfolded": str(w2)})
     for cse in (False, True):
         try:
             v1 = np.asarray(sp.lambdify([x], e, "numpy", cse=cse)(pts), dtype=complex)
